@@ -32,6 +32,7 @@ KNOWN_WHAT = {
     "jump-offset-overflow": "if branch / while body > 32767 instructions: 16-bit conditional jump offset overflows silently",
     "large-branch-rejected": "if branch / while body > 32767 instructions is rejected at compile time ('jump is too far')",
     "destructure-rest-far-registers": "`& rest` destructuring loop is emitted without write-back, wrong with > 255 live locals",
+    "break-jump-off-by-one": "break at the top of a `while true` loop of exactly 0x7FFFFF instructions is patched with jump offset 0x800000 = -0x800000 in the VM's signed 24-bit field (janetc_while checks the jump back, not the longest break jump)",
     "params-past-temp-registers": "function with > 240 parameters: parameter k >= 240 lives in register k+16 (allocator skips temporaries 0xF0-0xFF) but argument k arrives in slot k",
 }
 
